@@ -189,6 +189,20 @@ def fn(x):
 '''
 
 
+STORE_MOD_NESTED = '''import twosigma.memento as m
+from vf.recorder import REC
+
+class K:
+    @staticmethod
+    @m.memento_function(cluster=%(cluster)r, version=%(version)r)
+    def fn(x):
+        REC.hit("fn", x)
+        return x * 2
+
+fn = K.fn
+'''
+
+
 def store_child(arg):
     """Fresh process: define fn under (cluster, version), call twice, query and list."""
     import twosigma.memento as m
@@ -245,8 +259,11 @@ def run_store(case, out, fail):
             root = sc.path("s%d" % j)
             os.makedirs(root)
             with open(os.path.join(root, modname + ".py"), "w") as f:
-                f.write(STORE_MOD % {"cluster": cluster, "version": version})
-            qn = build_qn(cluster, modname, "fn", version)
+                # (every third function is nested in a class: its name in the qualified name is Class.function)
+                nested = j % 3 == 2
+                f.write((STORE_MOD_NESTED if nested else STORE_MOD) % {"cluster": cluster, "version": version})
+            fname = "K.fn" if nested else "fn"
+            qn = build_qn(cluster, modname, fname, version)
             ambiguous = len(decompositions(qn)) > 1
             label = "cluster %r version %r (qualified name %r)" % (cluster, version, qn)
             try:
@@ -275,7 +292,7 @@ def run_store(case, out, fail):
                     # (the function exists, in exactly this version: it is not a reference to something that is gone)
                     problems.append("the entry's own function is reported as an external reference (memento: %s, listing: %s)"
                                     % (steps["own_reference_external"][2], steps["listed_external"][2]))
-                want = [cluster, modname, "fn", version, qn]
+                want = [cluster, modname, fname, version, qn]
                 if want not in steps["list_functions"][2]:
                     problems.append("list_memoized_functions() gives %s, expected an entry %s" % (steps["list_functions"][2], want))
             if problems:
